@@ -2,14 +2,16 @@ from store_common import *
 
 META = {
     "category": "proof",
-    "text": 'Coq proves for LuaModuleIndex (refinement shared with C33, driver of Base/StoreSM.v), for EVERY history: after remove_file_by_uri(f) no container of the index holds the file id f (remove_no_mention: file-map keys and records, node file lists, fuzzy-name lists) and the index is — in every answer and every container count — what it would be had f never been submitted (remove_frees: equal to the history with all operations on f deleted; this is the memory-release statement and rules out the leaked leaf node / stale fuzzy entry that the unfixed code had). For the LuaGlobalIndex, DiagnosticIndex, LuaPropertyIndex and LuaTypeIndex (namespaces, file_types, declaration locations, super clauses) transcriptions: after remove(f) no stored id carries f — for a type still declared by another file neither its locations nor its super clauses — and no emptied entry survives. The tables regenerated from source prove that every fact container of every index is touched by its remove(). The models are tied by exact correspondence; the whole analysis is searched end-to-end: after a removal no line of the full observable dump (diagnostics, definitions, references, dependency edges, globals, types, members, docs, require resolution) may mention the removed file, and adding a file to an analysis of the other files and removing it again must give back every H2 container count AND every line of the dump (supers, members, inferred types, docs of the entities the file contributed to), outside the recorded finding.',
-    "note": 'Modelled and proved: LuaModuleIndex (all histories); LuaGlobalIndex, DiagnosticIndex, LuaPropertyIndex, LuaTypeIndex per-file part (state-level theorems, all four tied by correspondence). Other indexes: table obligations + end-to-end search. Completion items and workspace symbols are LS-level and are covered through the indexes they read (globals, types, members). Known open findings: LuaDependencyIndex keeps the edge of a surviving file to the removed file; JsonSchemaIndex entries are never removed; removing a file erases the hover description other files gave a shared class. Axioms: none.',
+    "text": 'Coq proves for LuaModuleIndex (refinement shared with C33, driver of Base/StoreSM.v), for EVERY history: after remove_file_by_uri(f) no container of the index holds the file id f (remove_no_mention: file-map keys and records, node file lists, fuzzy-name lists) and the index is — in every answer and every container count — what it would be had f never been submitted (remove_frees: equal to the history with all operations on f deleted; this is the memory-release statement and rules out the leaked leaf node / stale fuzzy entry that the unfixed code had). The same two theorems hold for LuaGlobalIndex (global_remove_frees) and for the product store LuaModuleIndex x LuaGlobalIndex x DiagnosticIndex (product_remove_no_mention, product_remove_frees). For the LuaGlobalIndex, DiagnosticIndex, LuaPropertyIndex and LuaTypeIndex (namespaces, file_types, declaration locations, super clauses) transcriptions: after remove(f) no stored id carries f — for a type still declared by another file neither its locations nor its super clauses — and no emptied entry survives. The tables regenerated from source prove that every fact container of every index is touched by its remove(). The models are tied by exact correspondence; the whole analysis is searched end-to-end: after a removal no line of the full observable dump (diagnostics, definitions, references, dependency edges, globals, types, members, docs, require resolution) may mention the removed file, and adding a file to an analysis of the other files and removing it again must give back every H2 container count AND every line of the dump (supers, members, inferred types, docs of the entities the file contributed to), outside the recorded finding.',
+    "note": 'Modelled and proved for all histories (StoreSM refinements): LuaModuleIndex, LuaGlobalIndex, DiagnosticIndex and their product (product_remove_no_mention, product_remove_frees); LuaMemberIndex transcribed and tied (removal rule proved in C08); LuaReferenceIndex cross-file maps (global_references, index_reference) transcribed, tied, state-level removal theorems. Also: LuaGlobalIndex, DiagnosticIndex, LuaPropertyIndex, LuaTypeIndex per-file part (state-level theorems, all four tied by correspondence). Other indexes: table obligations + end-to-end search. Completion items and workspace symbols are LS-level and are covered through the indexes they read (globals, types, members). Known open findings: LuaDependencyIndex keeps the edge of a surviving file to the removed file; JsonSchemaIndex entries are never removed; removing a file erases the hover description other files gave a shared class. Axioms: none.',
     "technique": "Coq refinement proof over all histories + table obligations regenerated from source + exact model-vs-implementation correspondence + end-to-end search (mention scan and add/remove round trip of container counts)",
 }
 
 THEOREMS = [("remove_no_mention", "theorem"), ("remove_frees", "theorem"), ("diagnostic_remove_no_mention", "theorem"),
             ("global_remove_no_mention", "theorem"), ("global_remove_no_empty", "theorem"), ("property_remove_no_file", "theorem"),
             ("type_remove_no_mention", "theorem"), ("type_remove_file_maps", "theorem"),
+            ("product_remove_no_mention", "theorem"), ("product_remove_frees", "theorem"), ("global_remove_frees", "theorem"),
+            ("reference_remove_no_mention", "theorem"), ("reference_remove_no_empty", "theorem"),
             ("remove_example", "example")]
 TABLES = [("index_containers_touched_by_remove_outside_known", "table"), ("dbindex_fields_all_cleared_and_removed", "table")]
 PROPS = {"C10"}
